@@ -356,8 +356,18 @@ def _writes(text):
 def _fold_product(expr):
     """normal form of a pure product: integer literals multiplied, factors sorted, `1 *` dropped; other expressions unchanged"""
     e = expr.strip()
-    while e.startswith("(") and match_brace(e, 0, "(", ")") == len(e) - 1:
-        e = e[1:-1].strip()
+    _CAST = r"^\(\s*(?:const\s+)?(?:unsigned\s+)?(?:size_t|ssize_t|uint64_t|int64_t|int|long|double)\s*\)\s*"
+    while True:
+        e0 = e
+        while e.startswith("(") and match_brace(e, 0, "(", ")") == len(e) - 1:
+            e = e[1:-1].strip()
+        mc = re.match(_CAST, e)
+        if mc:
+            rest_ = e[mc.end():].strip()
+            if rest_.startswith("(") and match_brace(rest_, 0, "(", ")") == len(rest_) - 1:
+                e = rest_          # a value cast over the whole (parenthesised) expression
+        if e == e0:
+            break
     depth, parts, cur = 0, [], []
     for ch in e:
         if ch in "([":
@@ -374,7 +384,7 @@ def _fold_product(expr):
     parts.append("".join(cur).strip())
     flat = []
     for q in parts:
-        q = re.sub(r"^\(\s*(?:int64_t|int|long|double)\s*\)\s*", "", q)          # value casts
+        q = re.sub(r"^\(\s*(?:const\s+)?(?:unsigned\s+)?(?:size_t|ssize_t|uint64_t|int64_t|int|long|double)\s*\)\s*", "", q)          # value casts
         if q.startswith("(") and match_brace(q, 0, "(", ")") == len(q) - 1:
             inner = _fold_product(q[1:-1])
             if not re.search(r"[+\-/%<>=&|?:,]", inner):
@@ -597,6 +607,18 @@ def _reachers(funcs):
     return entries
 
 
+def _canon_cond(cond, var, resolve):
+    """conjunction of guards, each resolved to the entry points; alternatives along call chains where a guard is the
+    literal 0 (the region is never parallel along that chain) are dropped, guards that are the literal 1 are dropped"""
+    terms = []
+    for t in [x.strip() for x in cond.split("&&")]:
+        alts = sorted(a_ for a_ in resolve(re.sub(r"\b%s\b" % re.escape(var), "V", t)) if a_ not in ("0", "(0)"))
+        alts = [a_ for a_ in alts if a_ not in ("1", "(1)")]
+        if alts:
+            terms.append("/".join(alts))
+    return " && ".join(sorted(set(terms)))
+
+
 def _canon_bound(bound, var, resolve):
     """`v < SIZE` (or `v <= SIZE`): the iteration-space size, resolved to the entry points' parameters and with products folded"""
     m = re.match(r"^\s*%s\s*(<=|<)\s*(.*)$" % re.escape(var), bound)
@@ -677,14 +699,63 @@ def canonical(repo):
             im = re.search(r"\bif\s*\(", clause)
             cond = clause[im.end():match_brace(clause, im.end() - 1, "(", ")")].strip() if im else ""
             cond = re.sub(r"\b(\w+)\b", lambda q: macros.get(q.group(1), q.group(1)), cond)
-            other = sorted(set(re.findall(r"\b(shared|reduction|schedule|collapse|nowait|num_threads)\b", clause)))
+            # `schedule(...)` only distributes iterations over threads: which iteration writes what is unchanged -> not part of the key
+            other = sorted(set(re.findall(r"\b(shared|reduction|nowait|num_threads)\b", clause)))
+            ncol = re.search(r"\bcollapse\s*\(\s*(\d+)\s*\)", clause)
+            ncol = int(ncol.group(1)) if ncol else 1
+            directive = re.sub(r"\s*collapse\s*\(\s*\d+\s*\)", "", directive).strip()
+            # the region is parallel iff the OpenMP `if` clause AND the enclosing C `if (flag)` blocks hold; a plain flag
+            # (identifier / negated identifier) is part of the key, so `if (f) {#pragma loop} else {serial twin}` and the
+            # merged `#pragma ... if (f)` loop are the same region
+            guards = []
+            pos_, depth_ = m.start(), 0
+            k_ = pos_ - 1
+            while k_ > 0:
+                ch = body[k_]
+                if ch == "}":
+                    depth_ += 1
+                elif ch == "{":
+                    if depth_ == 0:
+                        hdr_ = body[max(0, k_ - 200):k_]
+                        mg = re.search(r"(else\s*)?(?:if\s*\(\s*(!?\s*[A-Za-z_]\w*)\s*\)\s*)?$", hdr_)
+                        mi = re.search(r"\bif\s*\(\s*(!?\s*[A-Za-z_]\w*)\s*\)\s*$", hdr_)
+                        if mi and not re.search(r"\belse\s+if\s*\([^()]*\)\s*$", hdr_):
+                            guards.append(mi.group(1).replace(" ", ""))
+                    else:
+                        depth_ -= 1
+                k_ -= 1
+            if guards:
+                cond = " && ".join(([cond] if cond else []) + sorted(set(guards)))
             loop = analyse_loop(body, m.end())
             if loop is None:
                 prag.append(dict(file=f["file"], function=n, key="%s|%s|%s|UNPARSED" % (f["file"], ",".join(entries(n)), clause)))
                 continue
             var, bound, lbody = loop
+            size_expr = None
+            mvb = re.match(r"^\s*%s\s*<\s*(.*)$" % re.escape(var), bound)
+            col_vars = [var]
+            if ncol > 1 and mvb:
+                # collapse(n) over a perfect nest: one iteration per index tuple; the iteration space is the product of the
+                # bounds and the loop variables of the nest are private - the flattened `ij` loop in other words
+                sizes, cur = [mvb.group(1).strip()], lbody
+                ok_ = True
+                for _ in range(ncol - 1):
+                    inner = analyse_loop(cur, 1)
+                    mi2 = inner and re.match(r"^\s*%s\s*<\s*(.*)$" % re.escape(inner[0]), inner[1])
+                    if not inner or not mi2:
+                        ok_ = False
+                        break
+                    col_vars.append(inner[0])
+                    sizes.append(mi2.group(1).strip())
+                    cur = inner[2]
+                if ok_:
+                    size_expr = " * ".join("(%s)" % x_ for x_ in sizes)
+                else:
+                    directive += " collapse(%d)" % ncol
+            if size_expr is not None:
+                bound = "%s < %s" % (var, size_expr)
             inner_decl = _decls_anywhere(lbody)
-            private = set(priv) | set(inner_decl) | {var}
+            private = set(priv) | set(inner_decl) | set(col_vars)
             shared_locals, wroots = set(), set()
 
             def classify(x, direct_assign):
@@ -726,7 +797,7 @@ def canonical(repo):
                             classify(x, direct_assign=False)
             rec = dict(file=f["file"], function=n, entries=entries(n), directive=directive, loop_var=var,
                        bound=_canon_bound(bound, var, lambda e_: resolve_expr(n, e_)),
-                       cond="/".join(sorted(resolve_expr(n, re.sub(r"\b%s\b" % re.escape(var), "V", cond)))) if cond else "",
+                       cond=_canon_cond(cond, var, lambda e_: resolve_expr(n, e_)) if cond else "",
                        other_clauses=other, shared_written_locals=sorted(shared_locals), shared_written_roots=sorted(wroots),
                        thread_private=sorted(private))
             rec["key"] = "%s|%s|%s|%s|if(%s)|%s|shared-locals[%s]|writes[%s]" % (
